@@ -22,10 +22,13 @@ ASSUMPTIONS = [
     "catch/finally blocks are not explored here (exception paths belong to C07)",
     "only var scoping is used (let/const are outside the engine's language); block-level function visibility "
     "outside its block is not observed",
-    "a program that diverges on the engine is cut after 30 clock polls (about 3*10^4 interpreter steps)",
+    "a program that diverges on the engine is cut after 10 (skeletons) or 30 (other families) clock polls, i.e. "
+    "about 10^4 / 3*10^4 interpreter steps",
 ]
 RUN = "mc.props.common:run_src"
-TL = 30
+TL = 30        # clock polls for the small families (about 3*10^4 interpreter steps)
+TL_SKEL = 10   # skeletons: the longest reference-conforming run (3 nested loops) needs < 3*10^3 steps; one
+               # diverging case costs 40 ms instead of 120 ms, which is what keeps the quick tier under a minute
 
 
 def _num(k):
@@ -42,12 +45,12 @@ D3_SET = ("for", "while", "forin", "forof", "switch", "sw_df_hit", "label", "try
 
 def skeleton2_cases():
     chains = [(a, b) for a in P.CONSTRUCTS for b in P.CONSTRUCTS]
-    return [(cid, {"src": src, "tl": TL}) for cid, src in P.skeletons(chains, P.EXITS2)]
+    return [(cid, {"src": src, "tl": TL_SKEL}) for cid, src in P.skeletons(chains, P.EXITS2)]
 
 
 def skeleton3_cases(outer):
     chains = [(outer, b, c) for b in D3_SET for c in D3_SET]
-    return [(cid, {"src": src, "tl": TL}) for cid, src in P.skeletons(chains, P.EXITS3)]
+    return [(cid, {"src": src, "tl": TL_SKEL}) for cid, src in P.skeletons(chains, P.EXITS3)]
 
 
 def nontrivial_skeleton(cid, payload, exp):
@@ -73,6 +76,8 @@ def evalorder_cases():
     C = []
 
     def add(label, src):
+        form, _, op = label.partition("/")
+        label = form + "/" + op.replace("/", "div")          # '/' separates the label fields
         C.append(("eo/%s :: %s" % (label, src), {"src": src, "tl": TL}))
 
     def both(label, src_expr, decl=""):
@@ -135,8 +140,8 @@ def evalorder_cases():
     acc = ("var st = 6; var o = {get k() { __out(10); return st; }, set k(v) { __out(11); __out(v); st = v; }}; ")
     add("assign/setter-order", acc + "%s[%s] = %s; st" % (L(1, "o"), L(2, '"k"'), L(3, "5")))
     for op in ASSIGNOPS:
-        add("compound-member/%s" % op, "var o = {k: 6}; var r = (%s[%s] %s %s); __out(r); o.k" % (L(1, "o"), L(2, '"k"'), op, L(3, "2")))
-        add("compound-accessor/%s" % op, acc + "var r = (%s[%s] %s %s); __out(r); st" % (L(1, "o"), L(2, '"k"'), op, L(3, "2")))
+        add("compound-member/%s" % op, "var o = {k: 6}; var r; r = %s[%s] %s %s; __out(r); o.k" % (L(1, "o"), L(2, '"k"'), op, L(3, "2")))
+        add("compound-accessor/%s" % op, acc + "var r; r = %s[%s] %s %s; __out(r); st" % (L(1, "o"), L(2, '"k"'), op, L(3, "2")))
         both("compound-ident/%s" % op, "(x %s (x = 10, 5), x)" % op, "var x = 6; ")
         add("compound-captured/%s" % op, "(function () { var x = 6; var h = function () { return x; }; x %s (x = 10, 5); "
             "return h(); })()" % op)
@@ -493,7 +498,7 @@ def nontrivial_any(cid, payload, exp):
 
 
 def _space(name, cases, rule, bound, nt):
-    return Space(name, RUN, cases, oracle="table", nontrivial=nt, rule=rule, bound=bound, batch=300)
+    return Space(name, RUN, cases, oracle="table", nontrivial=nt, rule=rule, bound=bound, batch=64)
 
 
 def core_spaces():
@@ -593,10 +598,16 @@ def signature(sp, cid, payload, exp, obs):
         op = parts[2] if len(parts) > 2 else ""
         if grp.startswith("tree"):
             head = "evaluation order, nested %s" % grp
+        elif grp == "valueOf":
+            head = "operator applied to an object operand (valueOf/toString/getter call order)"
+        elif grp in ("binary", "compound-member", "compound-accessor", "compound-ident", "compound-captured",
+                     "update-member", "update-accessor", "logical", "conditional", "unary"):
+            head = "evaluation order, %s operators" % grp
         else:
             head = "evaluation order, %s %s" % (grp, op)
     elif parts[0] == "cl":
-        head = "closure over %s, access %s, pattern %s" % (parts[1], parts[2], parts[3])
+        head = "closure over %s (%s closures)" % (parts[1], {"fe": "function-expression", "arrow": "arrow",
+                                                           "decl": "function-declaration"}[parts[5]])
     else:
         head = "%s %s" % (parts[1], "/".join(parts[2:3]) if parts[1] == "completion" else "/".join(parts[2:]))
     return "%s|%s" % (head, kind), "%s: %s" % (head, kind)
